@@ -106,7 +106,7 @@ func init() {
 	base := *worldProps["C11"]
 	base.Name = "C11AVS"
 	w := avsWeights()
-	for k, v := range map[string]int{"payFee": 3, "nativeDelegate": 2, "optIn": 2, "optOut": 1, "setKey": 1, "undelegate": 4, "depositNST": 1, "nstUpdate": 1} {
+	for k, v := range map[string]int{"payFee": 3, "nativeDelegate": 2, "optIn": 2, "optOut": 1, "setKey": 1, "undelegate": 4, "depositNST": 1, "nstUpdate": 1, "regToken": 3, "regChain": 1, "updToken": 1} {
 		w[k] = v
 	}
 	base.Gen = GenOpts{Weights: w, HostilePct: 15, ExtremePct: 4, MaxDt: 40, Tempos: []int{7, 21, 45}, Dynamic: avsDynamic, Anchor: true}
